@@ -34,11 +34,15 @@ Local Open Scope nat_scope.
                                   profile); otherwise a value.  num_cpus::get() >= 1 is TRUSTED (num_cpus 1.16 on
                                   Linux: min(cgroup quota, popcount of sched_getaffinity) when the quota is > 0, else
                                   the popcount, else max(1, sysconf); a running thread's affinity mask is never empty)
+     pardot_one_worker_float, pardot_more_workers_float, sched_few_elements_float
+                                  binary64, ALL data (NaN, infinities, signed zeros, overflow): with one worker and with
+                                  more workers than elements (every t > len -- worker counts no machine here offers)
+                                  the threaded product, and every interleaved execution, is bit-identical to dot
      sched_exact, sched_exact_float   over a ring / on exactly summable binary64 data every maximal execution returns
                                   the sequential dot (bit for bit).
    --------------------------------------------------------------------------------------------------------------- *)
 From OV Require Import Model.ParSched Proofs.ParSched Proofs.ParSchedOrder Proofs.ParSchedReal Proofs.ParSchedConfl
-  Proofs.ParSchedRefuted Proofs.ParSchedFloat Proofs.ParSchedTop Proofs.ParSchedMore.
+  Proofs.ParSchedRefuted Proofs.ParSchedFloat Proofs.ParSchedTop Proofs.ParSchedMore Proofs.ParSchedWorkers.
 
 Theorem sched_deterministic : forall (A : Arith) (v w : list A) t s0 n s,
   par_program v w t = Ok s0 -> steps v w t n s0 s -> terminal v w t s ->
@@ -237,3 +241,35 @@ Example sched_exact_float_nonvacuous :
   (zadot ex_zv ex_zw < 2 ^ 53)%Z /\ par_program (A := AF) ex_fv ex_fw 3 = Ok (sched_init 3) /\
   exists s, steps (A := AF) ex_fv ex_fw 3 16 (sched_init 3) s /\ terminal (A := AF) ex_fv ex_fw 3 s.
 Proof. exact ex_float_execution. Qed.
+
+Theorem pardot_one_worker_float : forall (v w : list AF), length v = length w ->
+  pardot (A := AF) 1 v w = dot (A := AF) v w.
+Proof. intros v w Hl. exact (pardot_one_worker_float_lemma v w Hl). Qed.
+Check pardot_one_worker_float : forall (v w : list AF), length v = length w ->
+  pardot (A := AF) 1 v w = dot (A := AF) v w.
+Print Assumptions pardot_one_worker_float.
+Print Assumptions audit_separator.
+
+Theorem pardot_more_workers_float : forall t (v w : list AF), length v < t -> length v = length w ->
+  pardot (A := AF) t v w = dot (A := AF) v w.
+Proof. intros t v w Hlt Hl. exact (pardot_more_workers_float_lemma t v w Hlt Hl). Qed.
+Check pardot_more_workers_float : forall t (v w : list AF), length v < t -> length v = length w ->
+  pardot (A := AF) t v w = dot (A := AF) v w.
+Print Assumptions pardot_more_workers_float.
+Print Assumptions audit_separator.
+
+(* non-vacuity: 6 elements among which an infinity, a NaN, a negative zero, a subnormal and two products that overflow;
+   17 workers (one more than the machine of the tie has CPUs) *)
+Example pardot_more_workers_float_nonvacuous :
+  length ex_wild_v < 17 /\ length ex_wild_v = length ex_wild_w /\ is_ok (pardot (A := AF) 17 ex_wild_v ex_wild_w) = true.
+Proof. exact ex_wild_ok. Qed.
+
+Theorem sched_few_elements_float : forall (v w : list AF) t s0 n s, t = 1 \/ length v < t ->
+  par_program (A := AF) v w t = Ok s0 -> steps v w t n s0 s -> terminal v w t s ->
+  main s = MRet (dot (A := AF) v w).
+Proof. intros v w t s0 n s Hc HP HS HT. exact (sched_few_elements_float_lemma v w t s0 n s Hc HP HS HT). Qed.
+Check sched_few_elements_float : forall (v w : list AF) t s0 n s, t = 1 \/ length v < t ->
+  par_program (A := AF) v w t = Ok s0 -> steps v w t n s0 s -> terminal v w t s ->
+  main s = MRet (dot (A := AF) v w).
+Print Assumptions sched_few_elements_float.
+Print Assumptions audit_separator.
